@@ -420,6 +420,59 @@ where
     }
 }
 
+/// Re-run the saved cases of this property (files under replays/<ID>/). A file that no longer
+/// decodes, names a part that is gone, or records a real-thread history that cannot be re-executed
+/// is skipped and counted; a case that fails with a signature that is not a listed known finding
+/// is a violation whose replay file is the saved file itself.
+fn replay_saved(def: &PropDef, findings: &Findings) -> (Value, Option<Violation>) {
+    let dir = crate::root().join("replays").join(def.id);
+    let mut files: Vec<std::path::PathBuf> = std::fs::read_dir(&dir)
+        .map(|rd| rd.filter_map(|e| e.ok().map(|e| e.path())).filter(|p| p.extension().map_or(false, |x| x == "json")).collect())
+        .unwrap_or_default();
+    files.sort();
+    let (mut ran, mut passed, mut skipped) = (0u64, 0u64, 0u64);
+    let mut first: Option<Violation> = None;
+    for f in &files {
+        let Some(doc) = std::fs::read_to_string(f).ok().and_then(|t| serde_json::from_str::<Value>(&t).ok()) else {
+            skipped += 1;
+            continue;
+        };
+        let part_name = doc["part"].as_str().unwrap_or("");
+        let Some(p) = def.parts.iter().find(|p| p.name() == part_name) else {
+            skipped += 1;
+            continue;
+        };
+        if part_name == "stress" {
+            skipped += 1;
+            continue;
+        }
+        let res = std::panic::catch_unwind(std::panic::AssertUnwindSafe(|| p.replay(&doc["case"], findings, false)));
+        match res {
+            Ok(Ok(())) => {
+                ran += 1;
+                passed += 1;
+            },
+            Ok(Err(fl)) if fl.sig == "replay-format" || fl.sig == "harness" || fl.sig.starts_with("stress") => skipped += 1,
+            Err(_) => skipped += 1,
+            Ok(Err(fl)) => {
+                ran += 1;
+                if first.is_none() {
+                    first = Some(Violation { part: "saved".to_string(), sig: fl.sig, msg: fl.msg, replay: f.display().to_string() });
+                }
+            },
+        }
+    }
+    let pj = json!({
+        "evaluations": ran,
+        "distinct_nontrivial": 0,
+        "files": files.len(),
+        "passed": passed,
+        "skipped_not_reexecutable": skipped,
+        "what": "saved cases under replays/<ID>/ re-run through the plain interpreter before the search (known findings tolerated)",
+    });
+    (pj, first)
+}
+
 pub fn write_replay(cfg: &RunCfg, part: &str, f: &Fail, case: &Value) -> String {
     let dir = crate::root().join("replays").join(cfg.id);
     let _ = std::fs::create_dir_all(&dir);
@@ -609,6 +662,26 @@ pub fn main_for(def: PropDef) -> ! {
     let mut total = PartStats::default();
     let mut parts_json = serde_json::Map::new();
     let mut violations: Vec<Violation> = Vec::new();
+    // replay tier: every saved case under replays/<ID>/ (shrunk failures of defects since
+    // repaired, hand-kept regression cases) goes through the plain interpreter first; known
+    // findings are tolerated as in the search itself
+    if only.as_deref().map_or(true, |o| o == "saved") && std::env::var("NV_NO_SAVED").is_err() {
+        let tp = Instant::now();
+        let (pj, v) = replay_saved(&def, &findings);
+        eprintln!(
+            "nv {} part {:<14} evals={:<8} {:.1}s{}",
+            def.id,
+            "saved",
+            pj["evaluations"].as_u64().unwrap_or(0),
+            tp.elapsed().as_secs_f64(),
+            if v.is_some() { "  ** VIOLATION" } else { "" }
+        );
+        total.evaluations += pj["evaluations"].as_u64().unwrap_or(0);
+        parts_json.insert("saved".to_string(), pj);
+        if let Some(v) = v {
+            violations.push(v);
+        }
+    }
     let mut excluded_all: BTreeMap<String, u64> = BTreeMap::new();
     let mut all_exhaustive = true;
     for p in &def.parts {
